@@ -22,6 +22,11 @@ RULES = MX + RM + SM + TH
 # Step rules of the models that the implementation cannot reach: D4 (nobody ever notifies the recursive mutex' queue)
 # makes the continuation after the wait dead code
 UNREACHABLE = ['rm.lockWokenAcq', 'rm.tlfWokenAcq']
+# rules that exist only in the `fixed` / `patch` / `loop` variants of the models (the proposed repairs, notes/C18_proposed_patches.diff);
+# they are exercised by running the harness with `--fixed` on a library that has the patch applied (see notes/C18.md)
+REPAIRED_ONLY = ['mx.tlfRecheckAcq', 'mx.tlfRepark', 'rm.lockRecheckAcq', 'rm.lockRepark', 'rm.unlock.last.wake', 'rm.tlfRecheckAcq',
+                 'rm.tlfRepark', 'sm.unlockF.none', 'sm.unlockF.wake', 'sm.xRecheckAcq', 'sm.xRepark', 'sm.sParkF', 'sm.sRecheckAcq',
+                 'sm.sRepark', 'sm.txFastF', 'sm.txRecheckAcq', 'sm.txRepark', 'sm.tsRecheckAcq', 'sm.tsRepark']
 
 D4 = ('D4 fiber::RecursiveMutex::unlock never notifies its wait queue: a fiber blocked in recursive(_timed)_mutex::lock() '
       'sleeps forever although the mutex was released (scenario `rec f0=L,L,U,U f1=L,U`)')
@@ -112,6 +117,10 @@ def run(res, tier):
         search_args=[['--mode', 'dfs', '--pb', '3', '--wb', '0', '--max-exec', '200000', '--random-scenarios', '40'],
                      ['--mode', 'random', '--random-runs', '5000', '--random-scenarios', '40']],
         known=KNOWN, unmodelled_ok=UNREACHABLE, lib_kind='fiber_dbg')
+    res.coverage['rules_of_repaired_variants_not_expected_on_this_tree'] = REPAIRED_ONLY
+    seen_repaired = [r for r in REPAIRED_ONLY if (val or {}).get('rules', {}).get(r, 0) > 0]
+    if seen_repaired:
+        res.notes.append('rules of the repaired model variants were exercised: %s' % seen_repaired)
     res.coverage['known_defects_exhibited'] = sorted({m.split(' ')[0] for m in res.known})
 
 
